@@ -91,6 +91,55 @@ def fixed_depth_builder(ctx, crate):
     ctx.report(clause, "drain_buffer:sort-dedup-iff-unsorted", oks, "sort_unstable + dedup run only when self.sorted is false (%d sites)" % len(sd), at=db.span, kind="N")
 
 
+def push_invariant(ctx, crate):
+    """N: `sorted == true` means the buffer is STRICTLY increasing — drain_buffer skips sort + dedup on
+    that flag, and buff_to_bmoc emits the buffer as is.  So every way through `push` that appends the
+    value while leaving the flag true must have established last < value.  Decided per path (every
+    two-way test forced in turn); the forced outcomes are read on the three orderings of
+    (last, value): an ordering with last >= value that is consistent with a path which appends and
+    keeps the flag is a duplicate / inversion emitted as a cell."""
+    from rules.common import explore_leaves, feval
+    clause = "fixed-depth-builder"
+    fn = FD + "push"
+    b = ctx.anchor(crate, fn, clause)
+    if b is None: return
+    drain = FD + "drain_buffer"
+    from sym import UNIT
+    # drain_buffer (called when the buffer is full) is a separate step with its own rules: here it leaves the builder alone
+    leaves = explore_leaves(crate, fn, frames={fn}, models={drain: lambda eng, st, args, site: UNIT})
+    if leaves is None:
+        ctx.undecided(clause, "push:strictly-increasing-while-sorted", "the tests of push are not all two-way tests", at=b.span); return
+    sidx = crate.field_index("nested::bmoc::BMOCBuilderFixedDepth", "sorted")
+    sorted_t = ('fld', ('deref', ('p', 'self')), sidx)
+    value = ('p', b.param_names()[1])
+    bad = []; n_app = 0
+    for sub, e, r in leaves:
+        if not r.returns: continue
+        pushes = [ev for ev in e.events.values() if ev.callee and strip_generics(ev.callee).endswith("Vec::push") and len(ev.site) == 2 and value in ev.args]
+        if not pushes: continue
+        n_app += 1
+        fin = r.state.heap.get(sorted_t, sub.get(sorted_t, sorted_t))
+        if fin == C('bool', 0): continue                      # flag false: drain_buffer will sort and dedup
+        lasts = [ev for ev in e.events.values() if ev.callee and strip_generics(ev.callee).endswith("::last")]
+        if not lasts: continue
+        disc = ('discr', lasts[0].ret)
+        if sub.get(disc) == C('isize', 0) or disc not in sub: 
+            if sub.get(disc) == C('isize', 0): continue       # empty buffer
+        # the element compared with the value: any leaf of the forced comparisons that is not the value itself
+        cmps = [t for t in sub if t[0] == 'op' and t[1] in ('eq', 'ne', 'lt', 'le', 'gt', 'ge') and value in (t[3], t[4])]
+        others = {t[3] if t[4] == value else t[4] for t in cmps}
+        if len(others) > 1:
+            ctx.undecided(clause, "push:strictly-increasing-while-sorted", "the value is compared with several things: %s" % [show(o)[:40] for o in others], at=b.span); return
+        last = next(iter(others)) if others else None
+        for lv, vv in ((1, 2), (2, 2), (3, 2)):
+            if last is not None and not all(feval(t, {last: lv, value: vv}, e) == bool(sub[t][2]) for t in cmps): continue
+            if lv >= vv:
+                bad.append(("last %s value" % ("==" if lv == vv else ">"), {show(t)[:50]: bool(sub[t][2]) for t in cmps})); break
+    ctx.report(clause, "push:strictly-increasing-while-sorted", not bad and n_app >= 1,
+               "%d ways through push append the value; wherever the flag stays true the tests passed imply last < value" % n_app if not bad else
+               "push can append with %s while `sorted` stays true (tests on that path: %s): drain_buffer then skips sort + dedup and the duplicate becomes a cell" % bad[0], at=b.span, kind="N")
+
+
 def merge_level_cap(ctx, crate):
     """N: in the run-length grouping of the fixed-depth builder the merge level is capped by the
     builder's own depth (a cell cannot be coarser than a base cell: depth - level must not
@@ -119,7 +168,47 @@ def merge_level_cap(ctx, crate):
     tz = [m for m in mins if any(y[0] == 'call' and y[1].endswith("trailing_zeros") for y in walk(m))
           and not any(y is not m and y[0] == 'call' and y[1].endswith("::min") for a in m[2] for y in walk(a))]
     if not tz:
-        ctx.not_decided("merge-level cap of largest_lower_cell_sequence_len is not written as min(level, cap): not decided"); return
+        # no `min`: the level that sizes the run (n = 1 << (2 * level)) must still be bounded by the builder depth
+        from rules.common import is_cmp
+        def bounded(t, depth=0):
+            if depth > 8: return False
+            if t == dep: return True
+            if t[0] == 'c': return t[2] == 0
+            if t[0] == 'cast' and t[1] == 'int_to_int': return bounded(t[3], depth + 1)
+            if t[0] == 'call' and t[1].endswith("::min"): return any(bounded(a, depth + 1) for a in t[2])
+            if t[0] == 'phi':
+                g = e.phi_gate.get(t)
+                if g is not None:
+                    c, a, b_ = g
+                    # if x > depth { depth } else { x }   (and the flipped forms)
+                    for x in (a, b_):
+                        other = b_ if x is a else a
+                        if bounded(other, depth + 1) and (is_cmp(c, 'gt', x, dep) or is_cmp(c, 'ge', x, dep) or is_cmp(c, 'lt', x, dep) or is_cmp(c, 'le', x, dep)):
+                            le_branch = (x is b_ and (is_cmp(c, 'gt', x, dep) or is_cmp(c, 'ge', x, dep))) or (x is a and (is_cmp(c, 'lt', x, dep) or is_cmp(c, 'le', x, dep)))
+                            if le_branch: return True
+                return all(bounded(o, depth + 1) for o in e.phi_ops.get(t, ())) and bool(e.phi_ops.get(t))
+            return False
+        levels = []
+        def scan2(t):
+            for x in walk(t):
+                if x[0] == 'op' and x[1] == 'shl' and x[3][0] == 'c' and x[3][2] == 1 and x[4][0] != 'c':
+                    amt = x[4]
+                    while amt[0] == 'cast': amt = amt[3]
+                    if amt[0] == 'op' and amt[1] == 'shl' and amt[4][0] == 'c' and amt[4][2] == 1: levels.append(amt[3])
+                    elif amt[0] == 'op' and amt[1] == 'mul': levels.append(amt[3] if amt[4][0] == 'c' else amt[4])
+        for ev in e.events.values():
+            for a in ev.args: scan2(a)
+            if ev.ret is not None: scan2(ev.ret)
+        for d, _ in e.branches: scan2(d)
+        for vals in e.phi_ops.values():
+            for o in vals: scan2(o)
+        levels = list(dict.fromkeys(levels))
+        if not levels:
+            ctx.undecided(clause, "largest_lower_cell_sequence_len:merge-level<=builder-depth", "cannot find the run size 1 << (2 * level)", at=b.span); return
+        badl = [show(l)[:100] for l in levels if not bounded(l)]
+        ctx.report(clause, "largest_lower_cell_sequence_len:merge-level<=builder-depth", not badl,
+                   "merge level bounded by self.depth on every path" if not badl else "the merge level %s is not bounded by the builder depth on every path: the first cell of a base cell other than 0 has 2*depth+2 trailing zeros and more — a run is merged into a cell coarser than a base cell (depth underflow)" % badl, at=b.span, kind="N")
+        return
     bad = [show(m)[:100] for m in tz if dep not in m[2]]
     ctx.report(clause, "largest_lower_cell_sequence_len:merge-level<=builder-depth", not bad,
                "merge level = min(trailing_zeros(h)/2, self.depth)" if not bad else "the merge level is capped by something else than the builder depth: %s — a run of 4^(depth+1) cells is merged into a cell coarser than a base cell (depth underflow)" % bad, at=b.span, kind="N")
@@ -193,6 +282,7 @@ def run(ctx):
     ctx.floor("reencoding-obligations", n, len(triples))
     ctx.extra["triples"] = len(triples)
     fixed_depth_builder(ctx, crate)
+    push_invariant(ctx, crate)
     merge_level_cap(ctx, crate)
     pack_rule(ctx, crate)
     ctx.not_decided("coverage equality for all push sequences and capacities; fixpoint of pack; largest_lower_cell_sequence_len arithmetic (quantify over sequences)")
